@@ -360,8 +360,12 @@ class Check:
         bad = grep_gate()
         # tables that live as literals in /repo are re-translated on every run (fail-closed)
         from harness import translate_tables
-        changed, terr = translate_tables.regenerate()
-        self.coverage["tables_regenerated"] = {"changed": changed, "error": terr}
+        changed, terrs = translate_tables.regenerate()
+        # a table that can no longer be translated breaks the tie of the property whose theorems are about it (the other
+        # properties do not depend on it and keep building against the table's previous text)
+        terr = terrs.get(prop_file) or terrs.get("*")
+        self.coverage["tables_regenerated"] = {"changed": changed, "error": terr,
+                                               "errors_elsewhere": {k: v for k, v in terrs.items() if k != prop_file}}
         if terr:
             bad.append("translator: " + terr)
         rc, out, dt = coq_make()
